@@ -204,6 +204,22 @@ func (e *Engine) evalBuiltin(name string, cx *ast.CallExpr, st *State) Value {
 		case *types.Slice:
 			n := term(e.eval(cx.Args[1], st))
 			e.assert(st, mkCmp(">=", n, mkInt(0)), "make-slice-size", e.src(cx), nil)
+			if sv := structValueElem(u.Elem()); sv != nil {
+				return VSlice{Len: n, Elem: u.Elem(), Fields: e.structFields(sv, func(fn string, fs Sort) *Term {
+					var z *Term
+					switch fs {
+					case SInt:
+						z = mkInt(0)
+					case SReal:
+						z = toReal(mkInt(0))
+					case SBool:
+						z = tFalse
+					default:
+						z = mkConst("zero_"+sortTag(fs), fs)
+					}
+					return &Term{Op: "constarr", Args: []*Term{z}, Sort: arraySort(SInt, fs)}
+				})}
+			}
 			es := e.elemSort(u.Elem())
 			var zero *Term
 			if isChan(u.Elem()) {
@@ -215,6 +231,12 @@ func (e *Engine) evalBuiltin(name string, cx *ast.CallExpr, st *State) Value {
 			return VSlice{Arr: arr, Len: n, Elem: u.Elem()}
 		}
 		unsup("make(%s) at %s", t, e.src(cx))
+	case "new":
+		t := e.typeOf(cx.Args[0])
+		ref := e.fresh("new_"+typeShort(t), SRef)
+		e.localRefs[ref.String()] = true
+		e.dynType[ref.String()] = types.NewPointer(t)
+		return VTerm{T: ref, Typ: types.NewPointer(t)}
 	case "delete":
 		m, ok := e.eval(cx.Args[0], st).(VMap)
 		if !ok {
@@ -505,7 +527,18 @@ func sameValue(a, b Value) bool {
 		return ok && x.ID.String() == y.ID.String()
 	case VSlice:
 		y, ok := b.(VSlice)
-		return ok && x.Arr.String() == y.Arr.String() && x.Len.String() == y.Len.String()
+		if !ok || x.Len.String() != y.Len.String() || (x.Fields == nil) != (y.Fields == nil) {
+			return false
+		}
+		if x.Fields != nil {
+			for k, a := range x.Fields {
+				if bb, ok := y.Fields[k]; !ok || a.String() != bb.String() {
+					return false
+				}
+			}
+			return true
+		}
+		return x.Arr.String() == y.Arr.String()
 	case VClosure:
 		y, ok := b.(VClosure)
 		return ok && x.Lit == y.Lit
